@@ -197,7 +197,7 @@ def obligation_id(prop, qualname, shape, clause):
 def match_finding(findings, prop, qualname, shape, clause):
     for f in findings:
         props = f['property'] if isinstance(f['property'], list) else [f['property']]
-        if prop not in props:
+        if prop not in props and '*' not in props:
             continue
         for pat in f['obligations']:
             rx = re.compile('^' + '.*'.join(re.escape(x) for x in pat.split('*')) + '$')
